@@ -93,6 +93,13 @@ def handle (mode : String) (line : String) : String :=
       match keyeqSpec ws with
       | some b => if (if b then "1" else "0") == obs then "ok" else s!"violates key equality: expected {if b then 1 else 0}"
       | none => "bad-op"
+    | "serve" :: "udpbacklog" :: _ =>
+      match words obs with
+      | ["b", "got", g, "waited", w, "slowhandled", _, "serving", sv] =>
+        if sv != "1" then "violates Serve returned while peers were active"
+        else if g == "1/1" then "ok"
+        else s!"violates a second peer's request was not answered within its deadline ({w} ms) while another peer's well-formed requests were being handled"
+      | _ => "violates unparsable-observation"
     | "serve" :: _ => judgeServe obs
     | ["discover", n] =>
       match words obs with
